@@ -784,7 +784,10 @@ func spec_namesSp(l *LALR1, set []int, n int) string { panic("spec") }
 
 // C03 / C02 / C01: the stages of the LALR construction run in the order their inputs require: transitions, direct reads,
 // reads (Read sets), includes (Follow sets), lookback (lookahead sets), table
+// C05 / C08: the packed arrays TrySplitTable produced (proved equal to the dense table under lookup) are final - after that
+// call ComputeLALR only reports an error text; nothing rewrites a default vector or any other table afterwards
 //@ func ComputeLALR
-//@ props C03 C02 C01
+//@ props C03 C02 C01 C05 C08 C06
 //@ effects_only
+//@ effect after "(*lalr.LALR1).TrySplitTable" only fmt.Println, (error).Error
 //@ effect sequence lalr.NewLALR, (*lalr.LALR1).BuildTrans, (*lalr.LALR1).CalcDR, (*lalr.LALR1).CalcReadSet, (*lalr.LALR1).CalcFollowSet, (*lalr.LALR1).CalcLookAheadSet, (*lalr.LALR1).GenTable
